@@ -86,7 +86,7 @@ def run_one(entry, kind):
             if not c:
                 msgs.append('mutant does not compile: ' + out.strip().splitlines()[-1][:200] if out.strip() else 'no output')
         for pid, rule in entry['expect'].items():
-            env = dict(os.environ, FFSM2_REPO=d)
+            env = dict(os.environ, FFSM2_REPO=d, VERIF_EVIDENCE_DIR=os.path.join(d, 'evidence'), VERIF_REPORT_DIR=os.path.join(d, 'reports'))
             p = subprocess.run([os.path.join(VERIF, 'check'), pid, '--repo', d], cwd=VERIF, env=env,
                                stdout=subprocess.PIPE, stderr=subprocess.STDOUT, universal_newlines=True)
             out = p.stdout
@@ -109,8 +109,28 @@ def run_one(entry, kind):
                     msgs.append('%s: silent' % pid)
     finally:
         shutil.rmtree(d, ignore_errors=True)
-        # evidence files were rewritten by the runs against the scratch copy: that is restored by the caller
     return name, kind, ok, msgs
+
+
+def write_table(table):
+    """selftest/last_run.md: which check and rule caught which mutant, which refactors stayed silent (DESIGN.md Appendix B)"""
+    import re
+    L = ['# Last full self-test run (`selftest/run.py --all`)', '',
+         '%d entries, %d not as expected.' % (len(table), sum(1 for t in table if not t[2])), '',
+         '| entry | kind | as expected | outcome |', '|---|---|---|---|']
+    for name, kind, ok, msgs in sorted(table, key=lambda t: (t[1], t[0])):
+        d = []
+        for m in msgs:
+            m2 = re.match(r'(C\d\d): fired (.*)', m)
+            if m2:
+                d.append(m2.group(1) + ': ' + ', '.join(sorted(set(re.findall(r'violated (C\d\d\.[a-z])', m2.group(2))))))
+            elif re.match(r'C\d\d: silent', m):
+                d.append(m.replace(': silent', ' silent'))
+            elif not ok:
+                d.append(m[:160].replace('|', '/'))
+        L.append('| %s | %s | %s | %s |' % (name, kind, 'yes' if ok else 'NO', '; '.join(d)))
+    with open(os.path.join(HERE, 'last_run.md'), 'w') as f:
+        f.write('\n'.join(L) + '\n')
 
 
 def main(argv):
@@ -118,29 +138,19 @@ def main(argv):
     entries = [(e, 'mutant') for e in load('mutants.json')] + [(e, 'refactor') for e in load('refactors.json')]
     if pats:
         entries = [(e, k) for e, k in entries if any(p in e['name'] for p in pats)]
-    # the checks rewrite /verif/evidence/<id>.json; keep the real ones
-    ev_dir = os.path.join(VERIF, 'evidence')
-    backup = os.path.join(VERIF, '.build', 'evidence-backup')
-    shutil.rmtree(backup, ignore_errors=True)
-    if os.path.isdir(ev_dir):
-        shutil.copytree(ev_dir, backup)
     bad = 0
-    try:
-        # runs of the same property share the evidence/report files, so run sequentially per property; parallel across
-        # entries is still safe for verdicts because each check only reads its own output, but keep it simple:
-        with cf.ThreadPoolExecutor(max_workers=int(os.environ.get('SELFTEST_JOBS', '4'))) as ex:
-            for name, kind, ok, msgs in ex.map(lambda ek: run_one(*ek), entries):
-                print('%s %-8s %s' % ('ok  ' if ok else 'FAIL', kind, name))
-                for m in msgs:
-                    print('       ' + m)
-                if not ok:
-                    bad += 1
-    finally:
-        if os.path.isdir(backup):
-            shutil.rmtree(ev_dir, ignore_errors=True)
-            shutil.copytree(backup, ev_dir)
-            shutil.rmtree(backup, ignore_errors=True)
+    table = []
+    with cf.ThreadPoolExecutor(max_workers=int(os.environ.get('SELFTEST_JOBS', '4'))) as ex:
+        for name, kind, ok, msgs in ex.map(lambda ek: run_one(*ek), entries):
+            print('%s %-8s %s' % ('ok  ' if ok else 'FAIL', kind, name), flush=True)
+            for m in msgs:
+                print('       ' + m)
+            if not ok:
+                bad += 1
+            table.append((name, kind, ok, msgs))
     print('%d entries, %d failed' % (len(entries), bad))
+    if '--all' in argv:
+        write_table(table)
     return 1 if bad else 0
 
 
